@@ -119,7 +119,7 @@ pub fn boundary(after_unwind: bool) {
                 Some(t) => {
                     let (alive, tainted) = {
                         let o = &w.objs[t as usize];
-                        (o.in_box && !o.dropped && !o.moved_out && !o.uninit && !o.never_init, o.tainted)
+                        (o.in_box && !o.dropped && !o.moved_out && !o.uninit && !o.never_init, o.tainted || o.slack)
                     };
                     let exp_w = w.shadow_weak(t);
                     if !alive {
@@ -294,7 +294,7 @@ fn walk_roots() {
             // strong_count() is the public view of this field; read through a real handle below
             let real = snap.strong() as u32;
             let exp = w.shadow_strong(oid);
-            let tainted = o.tainted;
+            let tainted = o.tainted || o.slack;
             let bad = if tainted { real < exp } else { real != exp };
             if bad {
                 let sig = format!("strong-count/{}", if real < exp { "too-low" } else { "too-high" });
